@@ -15,6 +15,7 @@ CONSTANTS CellNames, PatNames, MaxCopies, MaxDecoys, MaxAtoms, AnchorSet, DecoyS
 
 \* anchors: interior, the three faces, three edges, the corner, and the far corner (-1 = last lattice plane)
 AnchB == {<<8,8,7>>, <<0,9,2>>, <<-1,-1,-1>>}
+AnchH == {<<2,3,4>>, <<30,0,41>>, <<-1,-1,-1>>}
 AnchQ == {<<2,2,2>>, <<0,2,2>>, <<2,0,2>>, <<2,2,0>>, <<0,0,2>>, <<2,0,0>>, <<0,0,0>>, <<-1,-1,-1>>}
 AnchT == AnchQ \cup {<<0,2,0>>, <<-1,2,2>>, <<2,-1,2>>, <<2,2,-1>>, <<-1,-1,2>>, <<-1,0,0>>, <<1,3,1>>, <<3,1,4>>}
 DecoyQ == {<<1,0,0>>, <<0,-1,0>>, <<0,0,1>>, <<1,1,0>>, <<-1,0,1>>, <<0,2,0>>}
@@ -41,6 +42,7 @@ Pat(p) ==
     [] p = "P4sam" -> <<At("C",0,0,0), At("C",2,0,0), At("C",0,1,0), At("C",1,1,2)>>
     [] p = "P4ax"  -> <<At("C",0,0,0), At("N",3,0,0), At("O",1,1,0), At("F",1,0,1)>>    \* chiral, longest axis along x
     [] p = "P4flat" -> <<At("C",0,0,0), At("N",5,0,-1), At("O",0,5,-1), At("F",1,1,0)>>  \* shallow chirality
+    [] p = "P3long" -> <<At("C",0,0,0), At("N",20,0,0), At("O",40,0,0)>>   \* long collinear triple for bent decoys, see Bend
     [] p = "P5"    -> <<At("C",0,0,0), At("N",2,0,0), At("O",0,1,0), At("H",0,0,1), At("H",1,1,1)>>
 
 Cell(c) ==
@@ -51,6 +53,8 @@ Cell(c) ==
     [] c = "skew"   -> <<<<7,0,0>>, <<3,6,0>>, <<-3,3,6>>>>
     [] c = "big"    -> <<<<10,0,0>>, <<0,11,0>>, <<0,0,9>>>>
     [] c = "bigtri" -> <<<<10,0,0>>, <<-3,11,0>>, <<2,-4,9>>>>
+    [] c = "huge"   -> <<<<44,0,0>>, <<0,45,0>>, <<0,0,46>>>>
+    [] c = "hugetri" -> <<<<44,0,0>>, <<2,45,0>>, <<-1,3,46>>>>
     [] c = "narrow" -> <<<<2,0,0>>, <<0,6,0>>, <<0,0,6>>>>      \* violates the width precondition for patterns of diameter >= 2
 
 Chiral(P) == \E i, j, k, l \in 1..Len(P) :
@@ -103,6 +107,15 @@ NearMiss == /\ ndecoys < MaxDecoys /\ Len(P) >= 2 /\ "near" \in DecoyKinds
                  PlantWith(M, v, [P EXCEPT ![Len(P)].pos = VAdd3(@, d)], "NearMiss")
             /\ ndecoys' = ndecoys + 1 /\ UNCHANGED <<ncopies, planted>>
 
+(* A bent copy of the long collinear pattern: the middle atom one lattice unit off the axis.  Its pair distances    *)
+(* agree with the pattern's within the tolerance (sqrt(401) - 20 = 0.025 < tol), its *positions* do not: whatever  *)
+(* rigid motion is used, some atom is at least a quarter of a lattice unit (8 tol) away.  By the definition (exact *)
+(* squared distances) it is not an occurrence; a search that only compares distances reports it.                   *)
+Bend == /\ ndecoys < MaxDecoys /\ "bend" \in DecoyKinds /\ Len(P) = 3
+        /\ \E M \in Pick(DecoyRots, 2), v \in Anchors(cell), d \in {<<0,1,0>>, <<0,0,-1>>} :
+             PlantWith(M, v, [P EXCEPT ![2].pos = VAdd3(@, d)], "Bend")
+        /\ ndecoys' = ndecoys + 1 /\ UNCHANGED <<ncopies, planted>>
+
 \* a same-element distractor next to something
 AddAtom == /\ ndecoys < MaxDecoys /\ Len(atoms) < MaxAtoms /\ Len(atoms) > 0 /\ "atom" \in DecoyKinds
            /\ \E e \in {P[i].el : i \in 1..Len(P)}, v \in Pick(DecoySet, 3) :
@@ -119,7 +132,7 @@ Shift == /\ Len(atoms) > 0 /\ ~shifted /\ shifted' = TRUE
               /\ hist' = Append(hist, [op |-> "Shift", v |-> v])
          /\ UNCHANGED <<cell, pat, planted, ncopies, ndecoys>>
 
-Next == Plant \/ PlantMirror \/ NearMiss \/ AddAtom \/ Shift
+Next == Plant \/ PlantMirror \/ NearMiss \/ Bend \/ AddAtom \/ Shift
 Spec == Init /\ [][Next]_vars
 
 ---------------------------------------------------------------------------
@@ -150,7 +163,8 @@ MirrorMargin(Q) == \A i, j, k, l \in 1..Len(Q) :
    LET d == Det3(VSub3(Q[j].pos, Q[i].pos), VSub3(Q[k].pos, Q[i].pos), VSub3(Q[l].pos, Q[i].pos))
        n2 == Norm2(Cross3(VSub3(Q[j].pos, Q[i].pos), VSub3(Q[k].pos, Q[i].pos)))
    IN d # 0 => d * d * 1024 > 3 * n2
-ASSUME \A p \in PatNames : MirrorMargin(Pat(p)) /\ Diameter2(PatPos(Pat(p))) <= 60
+\* (the long collinear pattern is exempt: its only near-candidates are the bent decoys, argued at Bend)
+ASSUME \A p \in PatNames \ {"P3long"} : MirrorMargin(Pat(p)) /\ Diameter2(PatPos(Pat(p))) <= 60
 
 \* replacement patterns offered for a search pattern Q (used by the replace drivers): identical, one element
 \* substituted, one atom added off-axis, empty, first atom only, nothing in common
